@@ -84,13 +84,20 @@ def convert(t, var_names, assms, to_real, ctx):
             var_names.append(nm)
             v = Var(nm, t.arg.var_T)
             z3_v = convert_const(nm, t.arg.var_T, ctx)
-            return z3.ForAll(z3_v, rec(t.arg.subst_bound(v)))
+            body = rec(t.arg.subst_bound(v))
+            if t.arg.var_T == NatType:
+                # natural-number binders range over the non-negative integers only
+                body = z3.Implies(z3_v >= 0, body)
+            return z3.ForAll(z3_v, body)
         elif t.is_exists():
             nm = name.get_variant_name(t.arg.var_name, var_names)
             var_names.append(nm)
             v = Var(nm, t.arg.var_T)
             z3_v = convert_const(nm, t.arg.var_T, ctx)
-            return z3.Exists(z3_v, rec(t.arg.subst_bound(v)))
+            body = rec(t.arg.subst_bound(v))
+            if t.arg.var_T == NatType:
+                body = z3.And(z3_v >= 0, body)
+            return z3.Exists(z3_v, body)
         elif t.is_number():
             return t.dest_number()
         elif t.is_implies():
